@@ -299,6 +299,8 @@ def run(ctx):
         sizes[name] = len(log)
         for i, label in enumerate(log):
             cases.append({"scenario": name, "plan": {str(i): "raise"}})
+            # an interruption that is a BaseException but not an Exception (KeyboardInterrupt)
+            cases.append({"scenario": name, "plan": {str(i): "interrupt"}})
             if label in WRITE_LABELS:
                 cases.append({"scenario": name, "plan": {str(i): "torn"}})
             # process death at the effect (no handler runs); all effects in thorough, the archive-writing tail in quick
@@ -318,7 +320,7 @@ def run(ctx):
     ctx.rule = (
         "one case per (scenario, effect index, fault kind): every intercepted effect of the fault-free run of "
         "each scenario (small LO solve across one threshold; edit session adding and overwriting operators with "
-        "two user-code points; EKO product into a new path; in-place product) is failed once, byte writes also torn; process death (os._exit in a child process, no handler runs) at the last 14 effects of each scenario (thorough: at every effect, also after half of a byte write); "
+        "two user-code points; EKO product into a new path; in-place product) is failed once (an OSError/RuntimeError, and separately a KeyboardInterrupt), byte writes also torn; process death (os._exit in a child process, no handler runs) at the last 14 effects of each scenario (thorough: at every effect, also after half of a byte write); "
         "thorough adds pairs (i, i<j<=i+8) where the second fault lands in the error path; non-trivial = the fault fired and an exception propagated"
     )
     ctx.assumptions += [
